@@ -123,6 +123,13 @@ def gen_dag_program(rnd):
         uses.append(rnd.choice([apm.data(".word", total()), apm.insn("mov", ("imm", total()), ("reg", rnd.randrange(6))),
                                 apm.data(".word", total(), total())]))
     uses += [apm.label("after"), apm.data(".word", ("sym", "after"))]
+    if rnd.random() < 0.3:
+        # a definition nobody uses whose evaluation fails (division by zero, negative shift count) somewhere below a linear top:
+        # wherever it stands, the build must fail
+        u = pick()
+        bad = rnd.choice([("bin", "%", pick(), apm.num(0)), ("bin", "/", pick(), apm.num(0)),
+                          ("bin", "<<", apm.num(1), ("bin", "-", apm.num(0), ("sym", "dg0")))])
+        defs.append(apm.assign("dgunused", rnd.choice([("bin", "+", u, ("grp", bad)), ("bin", "-", ("bin", "*", apm.num(2), u), ("grp", bad)), bad])))
     return apm.Program([apm.SrcFile("f0.mac", uses + defs)])
 
 
